@@ -150,6 +150,7 @@ Proof.
   intros op t1 t2 t a b H Ha Hb. unfold binop_ty in H.
   destruct (is_subtype P t1 TInt) eqn:I1; destruct (is_subtype P t2 TInt) eqn:I2;
   destruct (is_subtype P t1 TStr) eqn:S1; destruct (is_subtype P t2 TStr) eqn:S2;
+  destruct (has_tuple t1 || has_tuple t2);
   destruct op; simpl in H; try discriminate; inversion H; subst; clear H;
   repeat match goal with
   | I : is_subtype P ?t TInt = true, M : mem P ?v ?t |- _ =>
